@@ -48,12 +48,17 @@ KEY_NAMES = ['x25519', 'p256', 'p384', 'p521', 'rsa']
 # keys (generated once per process tree; workers inherit them through fork)
 
 _KEYS = None
+KDF_KEYS = ['p256k', 'x25519k', 'p384k']
 
 
-def _mk(alg, size, encalg, encsize, name):
+def _mk(alg, size, encalg, encsize, name, kdf=None):
     k = pgpy.PGPKey.new(alg, size, created=T0)
     k.add_uid(pgpy.PGPUID.new('Recipient ' + name), usage={KeyFlags.Certify, KeyFlags.Sign}, created=T0, **PREFS)
     e = pgpy.PGPKey.new(encalg, encsize, created=T0)
+    if kdf is not None:
+        # RFC 6637 section 9: the KDF hash and the key-wrap cipher are parameters OF THE KEY (part of its fingerprint), any permitted
+        # combination may appear; set before the subkey is bound
+        e._key.keymaterial.kdf.halg, e._key.keymaterial.kdf.encalg = kdf
     k.add_subkey(e, usage={KeyFlags.EncryptCommunications, KeyFlags.EncryptStorage}, created=T0)
     return k
 
@@ -73,8 +78,12 @@ def keys():
                 'p521': (P.ECDSA, C.NIST_P521, P.ECDH, C.NIST_P521),
                 'rsa': (P.RSAEncryptOrSign, 2048, P.RSAEncryptOrSign, 2048)}
         ks = {}
+        H, S = HashAlgorithm, SymmetricKeyAlgorithm
+        kdfs = {'p256k': ('p256', (H.SHA512, S.AES256)), 'x25519k': ('x25519', (H.SHA384, S.AES192)), 'p384k': ('p384', (H.SHA256, S.AES128))}
+        for name, (base, kdf) in kdfs.items():
+            spec[name] = spec[base] + (kdf,)
         for name, a in spec.items():
-            k = _mk(*a, name=name)
+            k = _mk(*a[:4], name=name, kdf=a[4] if len(a) > 4 else None)
             nums = secret_numbers(k)
             ks[name] = {'name': name, 'key': k, 'pub': k.pubkey, 'primary': nums[0], 'sub': nums[1]}
         # a key that is never a recipient
@@ -547,6 +556,14 @@ def enumerate_cases(tier, seed):
                 for h in hs:
                     add(dir='fwd', cipher=c, body=b, comp=z, recips=[['pw', n % len(PASSPHRASES), h]], meta=(n + 2) % 4,
                         armored=(n % 6 == 0), inmem=(n % 3 == 0))
+    # ECDH keys whose KDF parameters are not this library's per-curve defaults
+    n = 0
+    for ci, c in enumerate(ciphers):
+        for k in KDF_KEYS:
+            n += 1
+            add(dir='fwd', cipher=c, body=bodies[n % 3], comp=COMP_NAMES[n % len(COMP_NAMES)], recips=[['key', k]], meta=n % 4, armored=(n % 5 == 0))
+            add(dir='rev', cipher=c, body=bodies[(n + 1) % 3], comp=COMP_NAMES[(n + 1) % len(COMP_NAMES)], comp0=False, recips=[['key', k]],
+                hdr=['new', 'new', 'new', 'new'], fname=n % len(REV_FILENAMES), time=1704067200, armored=False)
     # several recipients, both orders of passphrase and key, shared session key
     orders = [lambda k, p, k2, p2: [p, k], lambda k, p, k2, p2: [k, p], lambda k, p, k2, p2: [k, k2], lambda k, p, k2, p2: [p, p2],
               lambda k, p, k2, p2: [k, p, k2], lambda k, p, k2, p2: [p, k, p2], lambda k, p, k2, p2: [p, k, k2, p2]]
